@@ -29,6 +29,12 @@ def _get_stream_hexdigest(stream):
     return hasher.hexdigest()
 
 
+def _quote_query_component(string, safe='', encoding=None, errors=None):
+    # SigV4 canonical query strings percent-encode everything except unreserved
+    # characters (a space is %20 and not a plus sign, a slash is %2F)
+    return quote(string, safe='', encoding=encoding, errors=errors)
+
+
 def _hmac_sha256_digest(key, message):
     return hmac.new(key, message, hashlib.sha256).digest()
 
@@ -138,7 +144,9 @@ class S3Compatible(Backend, short_name='S3C'):
         encoded_canonical_uri = quote(canonical_uri)
         url = self.url + encoded_canonical_uri
         if query:
-            query_string = urlencode(sorted(query.items()))
+            query_string = urlencode(
+                sorted(query.items()), quote_via=_quote_query_component
+            )
             url += f'?{query_string}'
         else:
             query_string = ''
